@@ -874,7 +874,8 @@ func wcBody(env *simrt.Env, check string) {
 			req = "label " + lbl
 			err = w.sc.SetExperimentStateLabel(&StateLabelConfig{Label: lbl, WaitForError: true}, &ok)
 			if err == nil && cur != nil && !cur.stopped {
-				cur.labels = append(cur.labels, wcLabel{lbl, lo, lo})
+				// (the stamp is taken somewhere inside the request: the statement says no more than "timestamped")
+				cur.labels = append(cur.labels, wcLabel{lbl, lo, time.Now()})
 			}
 		case kind < 13:
 			// projectors/basis are (re)loaded at any time, also while writing. Whether the server accepts
